@@ -1,0 +1,15 @@
+//go:build verif
+
+package sched
+
+import "time"
+
+// VerifNow, when set, replaces the wall clock read by TimerQueue.RunAfter/RunEvery.
+var VerifNow func() time.Time
+
+func timeNow() time.Time {
+	if f := VerifNow; f != nil {
+		return f()
+	}
+	return time.Now()
+}
